@@ -21,7 +21,8 @@ def run(tier):
                 for _ in range(2 if quick else 4):
                     try:
                         v = vg.obj(cls, body)
-                    except Exception:
+                    except Exception as ex:
+                        C.harness_failure('value-generation', f"{t['name']} {cls}: {type(ex).__name__}: {ex}")
                         continue
                     jobs.append(dict(op='ser', cls=cls, value=v, san=False, then_deser=True, mutants=0))
         entries.append(dict(name=t['name'], tree=t['tree'], jobs=jobs, want_sources=True))
